@@ -666,7 +666,23 @@ func (e *testEnv) serveCase(rs reqSpec, plan *faultPlan, tag string) (*respView,
 		{"ready", bs(ready)}, {"htpasswd", lst(htTbl)}, {"oauthru", hx(e.proxy.getOAuthRedirectURI(scoped()))},
 		{"bearer", bearer}, {"basic", basic}, {"parsetbl", lst(parseTbl)}, {"trusted", lst(trTbl)}, {"paths", lst(pathTbl)}, {"constraints", lst(conTbl)},
 	}
-	_ = after
+	// clock edges: the implementation reads the wall clock itself (refresh due? uses Now().Truncate(Second); expired? uses Now()).
+	// When the harness's two clock reads around the request disagree about one of those decisions for the loaded session, the
+	// model cannot be given "the" time: the case is not compared (monitors still apply).
+	if l1 != nil && l1.Sess != nil {
+		edge := false
+		if ca := l1.Sess.CreatedAt; ca != nil && o.Cookie.Refresh > 0 && !ca.IsZero() {
+			due := func(t int64) bool { return time.Duration((t/1e9)*1e9-ca.UnixNano()) > o.Cookie.Refresh }
+			edge = edge || due(now) != due(after)
+		}
+		if ex := l1.Sess.ExpiresOn; ex != nil && !ex.IsZero() {
+			edge = edge || (ex.UnixNano() < now) != (ex.UnixNano() < after)
+		}
+		if edge {
+			c.count("serve:clock-edge-not-compared")
+			return v, real
+		}
+	}
 	c.emit(real, "serve", encKVs(cfgF), encKVs(reqF), encKVs(envF), rx)
 	c.count("serve:" + tag)
 	c.count("kind:" + strings.SplitN(real, " ", 3)[1%len(strings.SplitN(real, " ", 3))])
